@@ -59,8 +59,12 @@ TaskCmd(name, id, title, body, epic, state, claim, rsum, rpath, ok, agent, newid
    rclean |-> rpath, agent |-> agent, newids |-> newids]
 
 IdArgs(g) == Live(g) \cup (IF "badid" \in Extras THEN gone \cup {"zz"} ELSE {})
+\* ("lc:<id>" / "pad:<id>": the id of a live epic spelled in lower case / with a
+\* trailing blank - not the id of anything)
 EpicArgs(g) == EpicsOf(g) \cup
-               (IF "badepic" \in Extras THEN gone \cup {"zz"} \cup TasksOf(g) ELSE {})
+               (IF "badepic" \in Extras
+                  THEN gone \cup {"zz"} \cup TasksOf(g) \cup {"lc:" \o e : e \in EpicsOf(g)} \cup {"pad:" \o e : e \in EpicsOf(g)}
+                  ELSE {})
 AgentArgs == Agents \cup {""}
 
 CanCreate(kind) == /\ nid < MaxTasks + MaxEpics
@@ -86,7 +90,7 @@ SetCmds(g) ==
   IF "set" \notin CmdNames THEN {}
   ELSE {c \in {WithMode(TaskCmd("set", i, t, ABSENT, e, s, cl, ABSENT, ABSENT, FALSE, a, <<>>), m) :
                  i \in IdArgs(g), m \in ModeArgs,
-                 t \in (IF "text" \in Extras THEN {ABSENT, "T9", " "} ELSE {ABSENT}),
+                 t \in (IF "text" \in Extras THEN {ABSENT, "T9", " ", "UBLANK"} ELSE {ABSENT}),
                  e \in (IF "set_epic" \in Extras THEN Opt(EpicArgs(g) \cup {""}) ELSE {ABSENT}),
                  s \in Opt(StateArgs), cl \in Opt(ClaimArgs),
                  a \in (IF StateArgs = {} /\ ClaimArgs = {} THEN {""} ELSE AgentArgs)} :
@@ -256,7 +260,8 @@ P_C09 == [][/\ Holds(Props!C09_exact) /\ Holds(Props!C09_dryrun) /\ Holds(Props!
 P_C10 == [][Holds(Props!C10_unchanged)]_vars
 P_C11 == [][Holds(Props!C11_invalid_refused) /\ Holds(Props!C11_adds_exactly) /\ Holds(Props!C11_preserves)]_vars
 P_C12 == [][Holds(Props!C12_function_of_log) /\ Holds(Props!C12_reads_pure) /\ Holds(Props!C12_history_grows)]_vars
-P_C14 == [][Holds(Props!C14_ref) /\ Holds(Props!C14_epics_flat) /\ Holds(Props!C14_bad_refused)]_vars
+P_C14 == [][Holds(Props!C14_ref) /\ Holds(Props!C14_epics_flat) /\ Holds(Props!C14_bad_refused)
+            /\ Holds(Props!C14_compact_keeps)]_vars
 P_C15 == [][Holds(Props!C15_progress) /\ Holds(Props!C15_waits) /\ Holds(Props!C15_claim)]_vars
 P_C16 == [][Holds(Props!C16_one_value) /\ Holds(Props!C16_truth)]_vars
 P_C20 == [][Holds(Props!C20_only_grow) /\ Holds(Props!C20_confined) /\ Holds(Props!C20_live_only)
